@@ -9,6 +9,6 @@ rm -rf $D/.git
 (cd $D && GOFLAGS=-mod=mod GOPROXY=off GOSUMDB=off GOTOOLCHAIN=local go build ./... ) || { echo "MUTANT DOES NOT BUILD"; rm -rf $D; exit 3; }
 if [ -z "$SKIPTESTS" ]; then (cd $D && GOFLAGS=-mod=mod GOPROXY=off GOSUMDB=off GOTOOLCHAIN=local go test -vet=off -count=1 . >/dev/null 2>&1) || echo "NOTE: baseline tests FAIL with this mutant"; fi
 shift
-VERIF_REPO=$D /verif/bin/vcheck run $ID "$@" 2>&1 | grep -E "^(VIOLATION|KNOWN|  key|C[0-9]+ tier|vcheck)" | head -${HEADN:-8}
+VERIF_REPO=$D VERIF_EVIDENCE_DIR=$D/.evidence /verif/bin/vcheck run $ID "$@" 2>&1 | grep -E "^(VIOLATION|KNOWN|  key|C[0-9]+ tier|vcheck)" | head -${HEADN:-8}
 echo "exit=$?"
 rm -rf $D
